@@ -77,6 +77,35 @@ fn main() {
             replay: Box::new(|c| replay(&h_objects::all_traits(), c)),
         });
     }
+    if prop == "C01" {
+        sections.push(Section {
+            name: "builtin_fmt_traits",
+            explore: Box::new(|cx: &Cx| {
+                cx.rule("builtin_fmt_traits", "hand member xq: a type implements each of the nine built-in formatting traits (Display, Debug, Octal, LowerHex, UpperHex, Pointer, Binary, LowerExp, UpperExp) with its own distinct output; a group holding all nine (boxed, with and without a CArc context) is formatted with every specifier into a String - the text and the Ok/Err verdict must equal those of formatting the value directly, for an implementor that succeeds and for one that returns Err by itself after part of its output");
+                for (idx, desc, f) in h_objects::all_raw_checks() {
+                    if !desc.starts_with("[C01]") {
+                        continue;
+                    }
+                    let case = serde_json::json!({"trait": idx, "shape": desc, "raw": true});
+                    cx.eval("builtin_fmt_traits", &case, || match std::panic::catch_unwind(f) {
+                        Err(_) => explore::CaseOut::bad("panic", "panicked"),
+                        Ok(Err((sig, d))) => explore::CaseOut::bad(sig, d),
+                        Ok(Ok(obs)) => explore::CaseOut::ok(obs ^ idx as u64),
+                    });
+                }
+            }),
+            replay: Box::new(|c| {
+                let idx = c["trait"].as_u64().unwrap() as usize;
+                match h_objects::all_raw_checks().into_iter().find(|x| x.0 == idx) {
+                    None => explore::CaseOut::bad("replay:no_such_trait", "not in this tier"),
+                    Some((_, _, f)) => match f() {
+                        Err((sig, d)) => explore::CaseOut::bad(sig, d),
+                        Ok(o) => explore::CaseOut::ok(o),
+                    },
+                }
+            }),
+        });
+    }
     if prop == "C13" {
         sections.push(Section {
             name: "int_result_traits",
@@ -137,6 +166,9 @@ fn main() {
                 let checks = h_objects::all_raw_checks();
                 cx.rule("vtable_slots", "for every trait of the grammar tier: the static vtable of a Box container is reinterpreted as raw words; it must be exactly one function pointer per method, word i must be the entry of the i-th declared method, and *calling* word i the way a C caller would (container + wrapped arguments, incl. the int_result out-parameter) must run method i exactly once on the instance; the concrete (CBox<T>) and the opaque (CBox<c_void>) object must have equal size, alignment and bit pattern");
                 for (idx, desc, f) in checks {
+                    if desc.starts_with("[C01]") {
+                        continue;
+                    }
                     let case = serde_json::json!({"trait": idx, "shape": desc});
                     cx.eval("vtable_slots", &case, || match std::panic::catch_unwind(f) {
                         Err(_) => explore::CaseOut::bad("panic", "panicked"),
